@@ -1,7 +1,7 @@
 (* Extraction of the PKCS#12 primitive models of C17 (RC2, BMPString, PKCS#12 KDF with the toy hash of
    P12/PbkdfProofs.v) and of the signed-data verification model (P7/P7Model.v Verify) for the correspondence runner.  Directives: those of ExtrOcamlBasic only. *)
 From Coq Require Import Extraction ExtrOcamlBasic List NArith ZArith.
-From GmsmVerif Require Import Lib.Outcome P12.RC2Model P12.BmpModel P12.PbkdfModel P12.PbkdfProofs P7.P7Model Dec.ByteModels.
+From GmsmVerif Require Import Lib.Outcome P12.RC2Model P12.BmpModel P12.PbkdfModel P12.PbkdfProofs P7.P7Model P7.P7SignModel Dec.ByteModels.
 Extraction Language OCaml.
 Extraction "p12_model.ml" rc2_New rc2_encrypt rc2_decrypt bmpString decodeBMPString pbkdf_model toy_hash
-  Verify mkP7 mkSigner mkIAS mkAttr Decrypt mkEnv mkECI mkRI PKCS7Encrypt Dec.ByteModels.pad.
+  Verify mkP7 mkSigner mkIAS mkAttr Decrypt mkEnv mkECI mkRI PKCS7Encrypt Dec.ByteModels.pad sgn_model.
